@@ -9,7 +9,7 @@ from . import rel
 
 EXPECTED = ["C11_codename_iff", "C11_validate_iff", "C11_order_independent", "C11_only_sections", "C11_rounds_first",
             "C11_rounds_all_invalid", "C11_round_drops_unobtained", "C11_stage_drops_unobtained", "C11_stage_first",
-            "C11_stage_all_invalid"]
+            "C11_stage_all_invalid", "C11_stage_round_bound"]
 LEVEL = "proof"
 RULE = ("release-level: generated InRelease/Release pairs per codename (equal; differing in one size / one hash of one algorithm / "
         "the set of listed files; one or both absent; entries with non-positive sizes or release-file names that must be "
